@@ -25,7 +25,7 @@ class Violation(Exception):
 
 
 def gen_signal(st, n):
-    k = st.weighted((2, 3, 3, 2, 1), "signal")   # constant, non-constant positive, sign-changing, integer, zeros
+    k = st.weighted((4, 6, 6, 4, 2, 1, 1), "signal")   # constant, positive, sign-changing, integer, zeros, large ints
     if k == 0:
         c = st.draw(1, 40, "const") / 4.0
         vals = [c] * n
@@ -35,9 +35,17 @@ def gen_signal(st, n):
         vals = [st.draw(-4000, 4000, "v") / 97.0 for _ in range(n)]
     elif k == 3:
         vals = [float(st.draw(-30, 30, "v")) for _ in range(n)]
-    else:
+    elif k == 4:
         vals = [0.0] * n
-    form = st.weighted((6, 4, 4, 1, 1, 1), "form")  # float64 array, list, int64, int32, float32, list of ints
+    elif k == 5:
+        vals = [float(st.draw(-300000, 300000, "v")) for _ in range(n)]          # counts / byte rates: |v| up to 3e5
+    else:
+        vals = [float(st.draw(-6, 6, "v")) * 1e9 + float(st.draw(0, 999, "w")) for _ in range(n)]   # bit/s: up to 6e9
+    form = st.weighted((6, 4, 4, 1, 1, 1), "form")
+    if k == 5:
+        form = st.pick((3, 2, 5, 0), "int-form")      # int32, int64, list of ints, float64
+    if k == 6:
+        form = st.pick((2, 5, 0), "int-form")         # int64, list of ints, float64  # float64 array, list, int64, int32, float32, list of ints
     integral = all(float(v).is_integer() for v in vals)
     if form == 1:
         return vals, list(vals), "list"
